@@ -32,7 +32,13 @@ RULE = ("grammar-directed over the public operators (IntVar/Expr +,-,*, reversed
         "to 0..10, where a DFS run would not finish; judged by the verified evaluator on the returned and a planted "
         "assignment, the back-end actually used is compared with the Cp.Choose mirror) and a scaled-coefficient family "
         "(k*x+-c ~ k*y+-d, k*(x-y) ~ c, k*x-k*y ~ c, x+x ~ y+y+c with k in {2,3,-2}, constants divisible or not, ==/!=, "
-        "alone or with x==y / x!=y / all_different); non-trivial = >=1 constraint and >=2 variables with non-singleton domains; "
+        "alone or with x==y / x!=y / all_different); collection arguments of all_different/sum_*/circuit/no_overlap/"
+        "cumulative are presented as list, tuple, generator, map, reversed, iter, dict values view or a scratch list "
+        "that is cleared and refilled after add() (30% of the plain models, 70% of the history constraints); 1200 x "
+        "budget HISTORIES on one Model object (2-3 rounds of: declare variables, add constraints, solve with a varying "
+        "back-end; half of them start with a SAT solve that creates auxiliary variables), every solve judged against "
+        "Cp.Sem of the model as it is at that solve, class suffix :after_previous_solve when the same model passes "
+        "when built fresh; non-trivial = >=1 constraint and >=2 variables with non-singleton domains; "
         "distinct by (model, hints, limit, solver)")
 FN = "Model.solve"
 WEIGHTS = {"rel": 45, "simple": 18, "alldiff": 10, "sumeq": 5, "sumle": 4, "sumge": 4, "circuit": 5, "noov": 5, "cum": 4}
@@ -47,8 +53,10 @@ def gen_cases(rng, n_models, big):
         if hints and hidden:
             hints = {k: v for k, v in hints.items() if not (k[1:].isdigit() and int(k[1:]) in hidden)}
         limit = rng.choice([1, 1, 3, 100])
+        styles = [K.styles_for(c, rng) for c in cons] if rng.random() < 0.3 else None
         for solver in ("auto", "dfs", "sat"):
-            cases.append({"vars": vars_, "cons": cons, "hints": hints, "limit": limit, "solver": solver, "hidden": hidden})
+            cases.append({"vars": vars_, "cons": cons, "hints": hints, "limit": limit, "solver": solver, "hidden": hidden,
+                          "styles": styles})
     return cases
 
 
@@ -193,6 +201,12 @@ def evaluate(cases):
 
 def report(ctx, case, klass, what, rep):
     """ctx.fail, after shrinking the first few failing inputs (same symptom must persist)."""
+    if case.get("family") == "history":
+        # does the same model fail when it is built and solved fresh?  If not, the history is to blame
+        fresh = {k: v for k, v in case.items() if k not in ("family", "round")}
+        if not any(symptom(k) == symptom(klass) for k, _, _ in evaluate([fresh])[0][0]):
+            klass += ":after_previous_solve"
+        return ctx.fail(FN, klass, what, rep)
     if getattr(ctx, "_shrunk", 0) >= 5 or ctx.known_match(FN, klass) is not None or case.get("big"):
         return ctx.fail(FN, klass, what, rep)
     ctx._shrunk = getattr(ctx, "_shrunk", 0) + 1
@@ -215,10 +229,21 @@ def report(ctx, case, klass, what, rep):
     return ctx.fail(FN, klass, what, rep)
 
 
-def run_cases(ctx, cases, attribute=True):
+def run_histories(ctx, hcases):
+    """Histories on one Model object: every solve is judged against the model as it is at that solve."""
     K.preload()
-    outs = run_pool(K.impl, cases, timeout=K.SAT_TIMEOUT * (8 if any(c.get("big") for c in cases) else 1) + 20.0)
+    houts = run_pool(K.impl_history, hcases, timeout=3 * K.SAT_TIMEOUT + 20.0)
+    cases, outs, owner = K.flatten_histories(hcases, houts)
+    run_cases(ctx, cases, outs=outs, hist=[hcases[i] for i in owner])
+
+
+def run_cases(ctx, cases, attribute=True, outs=None, hist=None):
+    K.preload()
+    if outs is None:
+        outs = run_pool(K.impl, cases, timeout=K.SAT_TIMEOUT * (8 if any(c.get("big") for c in cases) else 1) + 20.0)
     pcss, replies = K.run_model(cases, outs, mode=2)
+    hist = hist or [None] * len(cases)
+    hist_of = {id(c): h for c, h in zip(cases, hist)}
     pending = []  # (case, klass, what, rep)
     groups = {}
     cov = ctx.cov.setdefault("coverage_table", {})
@@ -232,6 +257,11 @@ def run_cases(ctx, cases, attribute=True):
         path = K.path_of(case, d["choose_sat"])
         rep = {"case": case, "proto": pcs, "impl": out, "model": {k: d[k] for k in ("sols", "hint_sols", "checks", "choose_sat", "dfs",
                                                                                 "sat_under_assumptions", "sat_model_checks")}}
+        if hist_of.get(id(case)) is not None:  # replay needs the whole history; the judged model is the snapshot
+            rep = {**rep, "case": hist_of[id(case)], "snapshot": case, "round": case["round"]}
+            ctx.count(f"history_round:{case['round']}:{case['solver']}->{path}")
+        if case.get("styles") and any(case["styles"]):
+            ctx.count("presentation_styles:plain_case")
         st = out[1]["status"] if out[0] == "ok" else err_kind(out)
         ctx.count(f"status:{st}")
         ctx.count(f"solver:{case['solver']}->{path}")
@@ -265,12 +295,16 @@ def run_cases(ctx, cases, attribute=True):
         if out[0] == "ok" and st in ("OPTIMAL", "FEASIBLE", "INFEASIBLE"):
             key = json.dumps([case["vars"], case["cons"], case["hints"], case["limit"], case.get("hidden")], sort_keys=True)
             groups.setdefault(key, []).append((case["solver"], st != "INFEASIBLE", bool(fails)))
-        if out[0] == "ok" and out[1]["sols"] is not None and len(out[1]["sols"]) > case["limit"]:
+        if case.get("round") is not None:
+            pass
+        elif out[0] == "ok" and out[1]["sols"] is not None and len(out[1]["sols"]) > case["limit"]:
             ctx.tdiv(FN, {"case": case, "what": "more solutions returned than solution_limit", "impl": out[1]["sols"]})
         # R_trace (order-insensitive): with a limit above the number of solutions every back-end returns each
         # hint-compatible solution exactly once (DFS: theorem dfs_enumerates_all; mirror = dfsSolve)
+        # (not on later rounds of a history: auxiliaries of earlier encodings stay registered in the Model and
+        # multiply the returned assignments - recorded observation, the property does not demand distinctness)
         if (out[0] == "ok" and st in ("OPTIMAL", "FEASIBLE") and not case.get("big") and not case.get("hidden")
-                and len(d["hint_sols"]) < case["limit"] and not fails):
+                and len(d["hint_sols"]) < case["limit"] and not fails and not case.get("round")):
             got = sorted(tuple(s) for s in (out[1]["sols"] or []))
             want = sorted(tuple(s) for s in (d["dfs"] if (path == "dfs" and d["dfs"] is not None) else d["hint_sols"]))
             if got == want:
@@ -278,7 +312,8 @@ def run_cases(ctx, cases, attribute=True):
             else:
                 ctx.tdiv(FN, {"case": case, "what": f"{path} back-end with a limit above the number of solutions did not "
                               "return each solution exactly once", "impl": got, "mirror": want})
-        canon = [case["vars"], case["cons"], case["hints"], case["limit"], case["solver"], case.get("hidden") or []]
+        canon = [case["vars"], case["cons"], case["hints"], case["limit"], case["solver"], case.get("hidden") or [],
+                 case.get("styles"), case.get("round"), (hist_of.get(id(case)) or {}).get("history")]
         ctx.case(canon, K.nontrivial(case), {"case": case, "impl_status": st, "impl_sols": (out[1]["sols"] if out[0] == "ok" else None),
                                              "n_solutions": len(d["sols"]), "path": path})
     for g in groups.values():
@@ -297,7 +332,10 @@ def run_cases(ctx, cases, attribute=True):
             if len(case["cons"]) == 1:
                 continue
             for i in range(len(case["cons"])):
-                subs.append({**case, "cons": [case["cons"][i]]})
+                sub = {**case, "cons": [case["cons"][i]]}
+                if case.get("styles"):
+                    sub["styles"] = [case["styles"][i]] if i < len(case["styles"]) else None
+                subs.append(sub)
                 owners.append((n, i))
         found = {}
         if subs:
@@ -384,6 +422,9 @@ def run(ctx, budget):
         run_cases(ctx, gen_cases(ctx.rng, 1000, big=(ctx.tier == "thorough")))
     run_cases(ctx, gen_routing_cases(ctx.rng, 60 * budget))
     run_cases(ctx, gen_scaled_cases(ctx.rng, 400 * budget))
+    # fixed share, both tiers: histories on one Model (solve, extend, solve again) with presentation styles
+    for _ in range(budget):
+        run_histories(ctx, [K.gen_history(ctx.rng, big=(ctx.tier == "thorough")) for _ in range(1200)])
     summarise(ctx)
 
 
@@ -400,4 +441,6 @@ def summarise(ctx):
 def replay(ctx, body):
     ctx.cov["rule"] = RULE
     ctx._shrunk = 5  # replay exactly the recorded input, no further shrinking
+    if "history" in body["case"]:
+        return run_histories(ctx, [body["case"]])
     run_cases(ctx, [body["case"]])
